@@ -22,7 +22,7 @@ ASSUMPTIONS = ["asn1tools' UPER codec is the only decoder available: a symmetric
                "tolerance 1 LSB of the data element; at the exact class boundaries of the confidence enumerations either neighbour is accepted",
                "semiMajorAxisOrientation and the unit of cluster radii are not judged (the service's intention is not documented)"]
 REQUIRED_COUNTERS = ["cam.reports", "cam.elements_compared", "vam.reports", "vam.elements_compared", "denm.requests", "denm.elements_compared",
-                     "cluster.leader_vams", "cluster.operation_containers", "gdt.reconstructions", "camtraj.reports", "camtraj.path_points_compared", "keytraj.reports", "keytraj.elements_compared"]
+                     "cluster.leader_vams", "cluster.operation_containers", "gdt.reconstructions", "camtraj.reports", "camtraj.path_points_compared", "camtraj.path_histories_after_more_than_40_cams", "keytraj.reports", "keytraj.elements_compared"]
 
 ITS_EPOCH_MS = 1072915200000
 ALT_CONF = [(0.01, "alt-000-01"), (0.02, "alt-000-02"), (0.05, "alt-000-05"), (0.1, "alt-000-10"), (0.2, "alt-000-20"), (0.5, "alt-000-50"), (1, "alt-001-00"),
@@ -274,9 +274,10 @@ def run_camtraj(spec, res):
             tm._active = True
             lat, lon = rng.uniform(-70, 70), rng.uniform(-170, 170)
             steps = []
-            for _ in range(rng.randrange(4, 10)):
+            # every tenth trajectory is long enough to fill (and roll) the service's bounded path history several times over
+            for _ in range(rng.randrange(45, 70) if k % 10 == 9 else rng.randrange(4, 10)):
                 r = rng.random()
-                if r < 0.5:
+                if r < 0.5 or k % 10 == 9:
                     dlat, dlon = rng.uniform(-3e-4, 3e-4), rng.uniform(-3e-4, 3e-4)
                 else:
                     mag = rng.choice((0.0131070, 0.0131071, 0.0131072, 0.0131073, 0.0132, 0.02, 0.05, 1.0))
@@ -315,6 +316,11 @@ def run_camtraj(spec, res):
                     continue
                 lf = d["cam"]["camParameters"].get("lowFrequencyContainer")
                 if lf is not None:
+                    if len(sent_pos) > 40:
+                        res.count("camtraj.path_histories_after_more_than_40_cams")
+                    if sent_pos and not lf[1]["pathHistory"] and -131071 <= round((sent_pos[-1][0] - lat) * 1e7) <= 131071 and -131071 <= round((sent_pos[-1][1] - lon) * 1e7) <= 131071:
+                        res.violation("C11:cam:path-history-empty-although-previous-cam-position-in-range" + ("[after-more-than-40-cams]" if len(sent_pos) > 40 else ""),
+                                      f"{len(sent_pos)} earlier CAMs, the last one {round((sent_pos[-1][0] - lat) * 1e7)},{round((sent_pos[-1][1] - lon) * 1e7)} away", {**ctx, "_step": i})
                     for j, pp in enumerate(lf[1]["pathHistory"]):
                         res.count("camtraj.path_points_compared")
                         if j >= len(sent_pos):
